@@ -274,6 +274,8 @@ def jobs(tier):
                     for m in range(4):
                         if quick and kind != "v2c" and (n, m) != (1, 2):
                             continue
+                        if not quick and kind not in ("v2c", "v1") and m == 3:
+                            continue   # (thorough: max-repetitions 3 with lists of 3 only over v2c -- ~3000 s per job over v3)
                         if quick and kind == "v2c" and (n, m) in ((2, 0), (0, 0), (0, 3), (2, 3), (2, 2)):
                             continue
                         out.append(Job(f"{kind}-bulkget-n{n}-m{m}", make_harness(kind, op, maxk), args(op, n, m),
